@@ -14,6 +14,7 @@ func init() {
 }
 
 func checkC01(c *Ctx) {
+	ruleHookEnd(c)
 	ruleCRSplit(c)
 	ruleOrphanExit(c)
 	ruleCtor(c)
